@@ -37,7 +37,8 @@ CONSTANTS Threads,                 \* calling threads
           RemoveLocksBeforeLookup, \* remove_internal: lock_guard taken before the tree is searched
           EmptyTakesLock,          \* empty(): lock_guard
           ClearTakesLock,          \* clear(): lock_guard
-          ScanTakesLock            \* scan*(): lock_guard for the whole traversal
+          ScanTakesLock,           \* scan*(): lock_guard for the whole traversal
+          StatsTakeLock            \* statistics getters (node counts, memory use, ...): lock_guard
 
 VARIABLES map,     \* the abstract index: DOMAIN map \subseteq Keys, map[k] \in Vals
           holder,  \* owner of the std::mutex: a thread or None
@@ -67,6 +68,9 @@ Result(m, c) ==
                                              ELSE [r |-> FALSE]
     [] c.op = "empty" -> [r |-> DOMAIN m = {}]
     [] c.op = "clear" -> [r |-> TRUE]
+    \* statistics getter: the reported number of leaves is the number of entries (C10) at the moment
+    \* the getter owns the mutex -- never a value in the middle of another call's bookkeeping
+    [] c.op = "leaves" -> [r |-> TRUE, n |-> Cardinality(DOMAIN m)]
     [] c.op = "scan"  -> LET ks == SortedKeys(m, c.fwd) IN
                          [r |-> TRUE, ks |-> ks, vs |-> [i \in 1..Len(ks) |-> m[ks[i]]]]
 
@@ -77,13 +81,14 @@ Effect(m, c) ==
     [] OTHER          -> m
 
 Calls == [op : {"ins"}, k : Keys, v : Vals] \cup [op : {"rem", "get"}, k : Keys]
-         \cup [op : {"empty", "clear"}] \cup [op : {"scan"}, fwd : {TRUE}]
+         \cup [op : {"empty", "clear", "leaves"}] \cup [op : {"scan"}, fwd : {TRUE}]
 
 TakesLock(c) ==
   CASE c.op = "ins"   -> InsertTakesLock
     [] c.op = "empty" -> EmptyTakesLock
     [] c.op = "clear" -> ClearTakesLock
     [] c.op = "scan"  -> ScanTakesLock
+    [] c.op = "leaves" -> StatsTakeLock
     [] OTHER          -> TRUE
 
 \* Does the call return still owning the mutex (given that it owns it in its
